@@ -299,7 +299,7 @@ Fixpoint rp_walk (fs : fsdesc) (fuel : nat) (cur : list (list N)) (todo : list (
                  | [] => None
                  | x :: _ => rp_walk fs f (if x =? slash then [] else cur) (split_slash t ++ rest)
                  end
-             | Some _ => if forallb (fun d => is_nil d) rest && is_nil rest then Some (c :: cur) else None
+             | Some _ => if is_nil rest then Some (c :: cur) else None
              end
     end
   end.
